@@ -576,9 +576,9 @@ func runC14(c *h.Ctx) {
 			els[i] = fmt.Sprint(100 + i)
 		}
 		arrText := "[" + strings.Join(els, ",") + "]"
-		spell := []string{"3", "3.0", "0.3e1", "30e-1", "2.5e1", "25.0e-1", "2.5", "-0.5e1", "-5", "1e1", "1E1", "99.5e-1", "0.0e0", "0e5", "29.99", "2.999e1", "3.0e1", "1.5e10", "1e10", "-2.5e9", "2147483647.5e0", "0.29e2", "29e0", "-0.9", "-0.09e1", "0.000001e6", "123e-2"}
+		spell := []string{"2147483648", "-2147483649", "4294967296", "-4294967296", "9223372036854775807", "-9223372036854775808", "99999999999999999999", "4294967297", "2147483647", "-2147483648", "3", "3.0", "0.3e1", "30e-1", "2.5e1", "25.0e-1", "2.5", "-0.5e1", "-5", "1e1", "1E1", "99.5e-1", "0.0e0", "0e5", "29.99", "2.999e1", "3.0e1", "1.5e10", "1e10", "-2.5e9", "2147483647.5e0", "0.29e2", "29e0", "-0.9", "-0.09e1", "0.000001e6", "123e-2"}
 		for si, a := range spell {
-			for sj, b := range []string{"", "0.5e1", "2.9e1", "3e1", "7"} {
+			for sj, b := range []string{"", "0.5e1", "2.9e1", "3e1", "7", "4294967296", "-4294967295"} {
 				if !c.Mine(si*7 + sj) {
 					continue
 				}
@@ -741,7 +741,9 @@ func runC14(c *h.Ctx) {
 	// bad subscripts: not a single number within int32 range -> error in both modes
 	bad := []string{`"a"`, "true", "null", "$.nokey", "$[*]", "$", "2147483648", "-2147483649", "1e10", "$.a", "(1, 2)", `"1"`, "$[0 to 1]", "9223372036854775807", "$ ? (@ == 99)",
 		// an array holding one number is not a number (no unwrapping of the subscript's value)
-		"$one", "$[last].one", "$two", "$none", "$nested"}
+		"$one", "$[last].one", "$two", "$none", "$nested",
+		// a literal is the head of a chain like any other: what the chain yields is the subscript
+		"(0) ? (@ > 5)", "(1).type()", "(0).string()", "(1) ? (@ == 2)", `(0).keyvalue()`, "(1 == 1)", "(0)[1]", "(2147483647).abs() + 1", "(0.5).nokey", "(-2147483648).abs()", "(1).boolean()"}
 	docs := []string{`[1,2,3]`, `[[1,2],3]`, `[]`, `[null]`, `{"a":"x"}`, `[1,2,{"one":[1]}]`}
 	for _, b := range bad {
 		for _, d := range docs {
@@ -911,7 +913,10 @@ func runC14(c *h.Ctx) {
 	nr := c.PerShard(c.N(1000000, 10000000))
 	elemsAll := []string{"null", "0", "1", `"s"`, "[]", "[1,2]", "{}", `{"a":1}`, "true", "1.5", "-3"}
 	big := []bound{{text: "2147483647", val: 2147483647}, {text: "-2147483648", val: -2147483648}, {text: "100", val: 100}, {text: "-100", val: -100}, {text: "11.7", val: 11.7}, {text: "-1.9", val: -1.9}, {text: "2e1", val: 20}, {text: "1e0", val: 1},
-		{text: "2147483647.9", val: 2147483647.9}, {text: "-2147483648.5", val: -2147483648.5}, {text: "2147483646.5", val: 2147483646.5}, {text: "2147483647 + 0.5", val: 2147483647.5}}
+		{text: "2147483647.9", val: 2147483647.9}, {text: "-2147483648.5", val: -2147483648.5}, {text: "2147483646.5", val: 2147483646.5}, {text: "2147483647 + 0.5", val: 2147483647.5},
+		// literals heading a chain: the subscript is what the chain yields
+		{text: "(-1).abs()", val: 1}, {text: "(1.9).floor()", val: 1}, {text: "(0.5).ceiling()", val: 1}, {text: "(2) ? (@ > 1)", val: 2}, {text: "(-2).abs().double()", val: 2}, {text: "(3).number()", val: 3}, {text: "(0).abs()", val: 0},
+		{text: `"4".integer()`, val: 4}, {text: "(5 - 3)", val: 2}, {text: "(-5).abs() - 3", val: 2}, {text: "(2.5).decimal(1,0)", val: 3}, {text: "(-0.5).ceiling()", val: 0}}
 	allB := append(append([]bound{}, c14Bounds...), big...)
 	for i := 0; i < nr; i++ {
 		n := r.IntN(13)
